@@ -390,7 +390,11 @@ impl CompileError for TyperExternalError {
                 Severity::Error,
             ),
             TyperError::UnknownType(et, loc) => w.write_message(
-                &|f| write!(f, "unknown type name: {et:?}"),
+                &|f| match et {
+                    // Print the name as written - the debug form embeds raw source offsets
+                    ErrorType::Untyped(ty) => write!(f, "unknown type name: {}", ty.layout.0),
+                    _ => write!(f, "unknown type name"),
+                },
                 *loc,
                 Severity::Error,
             ),
